@@ -16,6 +16,7 @@ structure SubSt where
   sub : Option Sub         -- live-step state while the subscription exists
   pushes : List Nat := []
   ending : String := "none"
+  pct : Nat := 0           -- the client's positionCheckTime (unix s since the scenario start)
 deriving Inhabited
 
 structure Sim where
@@ -31,8 +32,10 @@ structure Sim where
   gated : Bool := false         -- the harness holds the writer inside every broadcast until a token arrives
   credits : Nat := 0
   held : Option Item := none    -- removed from the queue, waiting at the gate
+  mct : Nat := 0                -- the medium's positionCheckTime (ms since the scenario start)
+  top : Nat := 0                -- the broker's stream top as set by `top:` / `check:` events
 
-def deliverOne (it : Item) (s : SubSt) : SubSt :=
+def deliverOne (now : Nat) (it : Item) (s : SubSt) : SubSt :=
   match s.sub with
   | none => s
   | some st =>
@@ -43,7 +46,7 @@ def deliverOne (it : Item) (s : SubSt) : SubSt :=
     else
       let (st1, a) := liveStep st (toInc it)
       match a with
-      | .deliver o => { s with sub := some st1, pushes := s.pushes ++ [o] }
+      | .deliver o => { s with sub := some st1, pushes := s.pushes ++ [o], pct := now / 1000 }
       | .insufficient _ =>
         { s with sub := none, ending := if s.kind == "s" then "disc:3010" else "unsub:2500" }
       | _ => { s with sub := some st1 }
@@ -57,7 +60,7 @@ def Sim.noteGone (m : Sim) (now : Nat) : Sim :=
 
 def Sim.broadcast (m : Sim) (now : Nat) (its : List Item) : Sim :=
   (its.foldl (fun m it =>
-    { m with subs := m.subs.map (deliverOne it),
+    { m with subs := m.subs.map (deliverOne now it),
              bc := if m.medium then m.bc ++ [showItem it] else m.bc }) m).noteGone now
 
 /-- the writer runs once at (virtual) time `now` -/
@@ -106,6 +109,7 @@ def Sim.pump (m : Sim) (now : Nat) : Nat → Sim
 def Sim.arrive (m : Sim) (now : Nat) (it : Item) : Sim :=
   if !m.medium then m.broadcast now [it]
   else
+    let m : Sim := { m with mct := now }     -- broadcastPublication / broadcastInsufficientState stamp the medium
     let (q1, b) := step m.o m.q (.arrive it)
     let m1 := { m with q := q1 }.broadcast now b
     if !m.o.queue then m1
@@ -115,7 +119,9 @@ def Sim.arrive (m : Sim) (now : Nat) (it : Item) : Sim :=
 
 def checkPause : Nat := 42000
 
-def Sim.check (m : Sim) (now : Nat) (i : Nat) (top : Nat) : Sim :=
+/-- subscriber `i`'s periodic tick at `now`: `Client.checkPosition` (own gate, seconds) →
+`Node.checkPosition` → with SharedPositionSync `channelMedium.CheckPosition` (shared gate) -/
+def Sim.tick (m : Sim) (now : Nat) (i : Nat) : Sim :=
   match m.subs[i]? with
   | none => m
   | some s =>
@@ -123,15 +129,23 @@ def Sim.check (m : Sim) (now : Nat) (i : Nat) (top : Nat) : Sim :=
     | none => m
     | some st =>
       if s.kind == "n" then m
-      else if st.pos == top && st.epoch == 1 then m
+      else if !(now / 1000 - s.pct > 40) then m
       else
-        -- invalid position: with SharedPositionSync the medium broadcasts the sentinel first
-        let m1 := if m.medium && m.o.sps then m.arrive now .insuff else m
-        let subs' : List SubSt := m1.subs.mapIdx fun j (sj : SubSt) =>
+        let ok := st.pos == m.top && st.epoch == 1
+        let setPct := fun (m : Sim) => ({ m with subs := m.subs.mapIdx fun j (sj : SubSt) =>
+            if j == i then { sj with pct := now / 1000 } else sj } : Sim)
+        let endIt := fun (m : Sim) =>
+          let subs' : List SubSt := m.subs.mapIdx fun j (sj : SubSt) =>
             if j == i && sj.sub.isSome then
               { sj with sub := none, ending := if sj.kind == "s" then "disc:3010" else "unsub:2500" }
             else sj
-        ({ m1 with subs := subs' } : Sim).noteGone now
+          ({ m with subs := subs' } : Sim).noteGone now
+        if m.medium && m.o.sps then
+          if now - m.mct ≥ 40000 then
+            let m1 : Sim := { m with mct := now }
+            if ok then setPct m1 else endIt (m1.arrive now .insuff)
+          else setPct m      -- no real check: reported valid
+        else if ok then setPct m else endIt m
 
 def Sim.event (m : Sim) (parts : List String) : Option Sim :=
   match parts with
@@ -151,6 +165,11 @@ def Sim.event (m : Sim) (parts : List String) : Option Sim :=
           some (m.arrive t (.pub { offset := o, size := max sz 2, epoch := ep }))
         | _, _ => none
       | "insuff", _ => some (if m.medium then m.arrive t .insuff else m)
+      | "top", v :: _ => v.toNat?.map fun v => { m with top := v }
+      | "tick", i :: _ =>
+        match i.toNat? with
+        | some i => if i < m.subs.length then some (m.tick t i) else none
+        | none => none
       | "rel", n :: _ =>
         match n.toNat? with
         | some n =>
@@ -165,7 +184,7 @@ def Sim.event (m : Sim) (parts : List String) : Option Sim :=
           if i < m.subs.length then
             let t' := t + checkPause
             let m := m.advance t' 100000
-            some { (m.check t' i top) with shift := m.shift + checkPause }
+            some { (({ m with top := top } : Sim).tick t' i) with shift := m.shift + checkPause }
           else none
         | _, _ => none
       | _, _ => none
@@ -218,7 +237,7 @@ def step38 (line : String) : String :=
     else
       let subs : List SubSt := kinds.map fun k => { kind := k, sub := some { pos := top, epoch := 1 } }
       let gated := medium && g "gate" == "1" && o.queue && o.delay == 0
-      let m0 : Sim := { o := o, medium := medium, subs := subs, gated := gated }
+      let m0 : Sim := { o := o, medium := medium, subs := subs, gated := gated, top := top }
       let evs := if g "ev" == "" || g "ev" == "-" then [] else (g "ev").splitOn ";"
       let r := evs.foldl (fun (acc : Option Sim) ev => acc.bind fun m => m.event (ev.splitOn ":")) (some m0)
       match r with
